@@ -63,6 +63,128 @@ def concat_ops(e):
 _REPO = [None]
 
 
+def _flag_letters(func, name, param):
+    """``name`` is assigned once in the function from ``''.join(<letter> for <letter>, <flag> in
+    <constant pairs> if <param>.flags & <flag>)``: inline-flag letters picked by the regex's flags"""
+    if isinstance(name, str):
+        asg = [a for a in ast.walk(func) if isinstance(a, ast.Assign) and len(a.targets) == 1 and isinstance(a.targets[0], ast.Name) and a.targets[0].id == name]
+        if len(asg) != 1:
+            return False
+        v = asg[0].value
+    else:
+        v = name          # the join expression itself
+    if not (isinstance(v, ast.Call) and isinstance(v.func, ast.Attribute) and v.func.attr == 'join' and isinstance(v.func.value, ast.Constant) and v.func.value.value == '' and len(v.args) == 1):
+        return False
+    g = v.args[0]
+    if not (isinstance(g, (ast.GeneratorExp, ast.ListComp)) and len(g.generators) == 1):
+        return False
+    gen = g.generators[0]
+    if not (isinstance(gen.target, ast.Tuple) and len(gen.target.elts) == 2 and all(isinstance(x, ast.Name) for x in gen.target.elts) and isinstance(g.elt, ast.Name) and g.elt.id == gen.target.elts[0].id):
+        return False
+    if not (isinstance(gen.iter, (ast.Tuple, ast.List)) and all(isinstance(x, ast.Tuple) and len(x.elts) == 2 and isinstance(x.elts[0], ast.Constant) and x.elts[0].value in ('i', 'm', 's', 'x', 'a', 'L')
+                                                                 and unparse(x.elts[1]) in ('re.I', 're.M', 're.S', 're.X', 're.A', 're.L', 're.IGNORECASE', 're.MULTILINE', 're.DOTALL', 're.VERBOSE') for x in gen.iter.elts)):
+        return False
+    pairs = {x.elts[0].value: unparse(x.elts[1]) for x in gen.iter.elts}
+    right = {'i': ('re.I', 're.IGNORECASE'), 'm': ('re.M', 're.MULTILINE'), 's': ('re.S', 're.DOTALL'), 'x': ('re.X', 're.VERBOSE'), 'a': ('re.A',), 'L': ('re.L',)}
+    if any(fl not in right[l] for l, fl in pairs.items()) or 'i' not in pairs:
+        return False
+    if len(gen.ifs) == 1 and isinstance(gen.ifs[0], ast.BinOp) and isinstance(gen.ifs[0].op, ast.BitAnd):
+        sides = {canon(gen.ifs[0].left), canon(gen.ifs[0].right)}
+        if sides == {'%s.flags' % param, gen.target.elts[1].id}:
+            return True
+    return len(gen.ifs) == 1 and canon(gen.ifs[0]) in ('(%s.flags & %s)' % (param, gen.target.elts[1].id), '(%s & %s.flags)' % (gen.target.elts[1].id, param)) or \
+        (len(gen.ifs) == 1 and unparse(gen.ifs[0]) in ('%s.flags & %s' % (param, gen.target.elts[1].id), '%s & %s.flags' % (gen.target.elts[1].id, param)))
+
+
+def _group_operands(ops, recv_text, func=None, param=None):
+    """the operand ``<recv>.pattern`` of a concatenation stands between constant group syntax:
+    ``b'(?' [flag letters] b':' <recv>.pattern b')'`` (or ``b'(?:' <recv>.pattern b')'``).
+    Returns (grouped, carries_flags)"""
+    for i, x in enumerate(ops):
+        if isinstance(x, ast.Attribute) and x.attr == 'pattern' and canon(x.value) == recv_text:
+            nxt = ops[i + 1] if i + 1 < len(ops) else None
+            if not (isinstance(nxt, ast.Constant) and isinstance(nxt.value, bytes) and nxt.value.startswith(b')')):
+                return False, False
+            prev = ops[i - 1] if i else None
+            if isinstance(prev, ast.Constant) and isinstance(prev.value, bytes) and prev.value.endswith(b'(?:'):
+                return True, False
+            if isinstance(prev, ast.Constant) and prev.value == b':' and i >= 3 and isinstance(ops[i - 3], ast.Constant) and isinstance(ops[i - 3].value, bytes) and ops[i - 3].value.endswith(b'(?'):
+                fl = ops[i - 2]
+                ok = isinstance(fl, ast.Call) and isinstance(fl.func, ast.Attribute) and fl.func.attr == 'encode' and \
+                    ((isinstance(fl.func.value, ast.Name) and func is not None and _flag_letters(func, fl.func.value.id, param))
+                     or (isinstance(fl.func.value, ast.Call) and _flag_letters(func, fl.func.value, param or recv_text)))
+                return True, bool(ok)
+            return False, False
+    return None, None
+
+
+def _group_helper(repo, name):
+    """the module-level function ``name(regexp)`` returns the regex's pattern as a group that
+    carries its flags; None when it is not such a function"""
+    fis = [fi for (m_, n_), fi in repo.module_funcs.items() if n_ == name]
+    if len(fis) != 1 or not isinstance(fis[0].node, ast.FunctionDef) or len(fis[0].node.args.args) != 1:
+        return None
+    fn = fis[0].node
+    prm = fn.args.args[0].arg
+    rets = [r for r in ast.walk(fn) if isinstance(r, ast.Return) and r.value is not None]
+    if len(rets) != 1:
+        return None
+    grouped, flags = _group_operands(concat_ops(rets[0].value), prm, fn, prm)
+    if grouped and flags:
+        return fis[0]
+    return None
+
+
+def check_delimiter_pattern_is_a_group(ctx, repo, rule='R12-delimiter-group'):
+    """Round 9 (F13).  the regular expression a declaration gives as the delimiter of a byte
+    string is foreign text: spliced bare into the packet's expression, an alternative in it
+    (``\\d+!|$``) splits the *whole* expression in two, and its flags (re.I) are lost -- strings
+    that unpack to a packet equal to the pattern are rejected by the pre-filter.  It has to stand
+    in a group of its own that carries its flags"""
+    dt = repo.cls('Data')
+    fi = dt.methods.get('pack_regexp')
+    if fi is None:
+        raise Undecided('anchor Data.pack_regexp not found')
+    n = 0
+    funcs = [fi] + [g for (m_, n_), g in repo.module_funcs.items() if m_ == fi.module and any(isinstance(c, ast.Call) and isinstance(c.func, ast.Name) and c.func.id == n_ for c in ast.walk(fi.node))]
+    for f_ in funcs:
+        for x in ast.walk(f_.node):
+            if not (isinstance(x, ast.Attribute) and x.attr == 'pattern'):
+                continue
+            recv = canon(x.value)
+            if f_ is fi and 'until_marker' not in recv:
+                continue          # the placeholder's own expression is made of escaped literals and '.*' (checked by R12-any)
+            if f_ is not fi and not (isinstance(x.value, ast.Name) and x.value.id in [a.arg for a in f_.node.args.args]):
+                continue
+            n += 1
+            # the concatenation the operand belongs to
+            parents = {}
+            for pn in ast.walk(f_.node):
+                for c_ in ast.iter_child_nodes(pn):
+                    parents[id(c_)] = pn
+            top = x
+            while id(top) in parents and isinstance(parents[id(top)], ast.BinOp) and isinstance(parents[id(top)].op, ast.Add):
+                top = parents[id(top)]
+            ops = concat_ops(top) if top is not x else [x]
+            prm = x.value.id if isinstance(x.value, ast.Name) else None
+            grouped, flags = _group_operands(ops, recv, f_.node, prm)
+            if grouped and not flags and prm is None:
+                # self.until_marker.pattern grouped in place: the flags have to be read somewhere in the expression
+                flags = any(isinstance(y, ast.Attribute) and y.attr == 'flags' and canon(y.value) == recv for y in ast.walk(f_.node))
+            st = '%s: %s' % (f_.qual, short(top))
+            if grouped and flags:
+                ctx.holds(rule, f_, st, 'the delimiter\'s expression stands in a group of its own with its flags', x.lineno, clause='a')
+            elif grouped:
+                ctx.violation(rule, f_, st, 'the delimiter\'s expression is grouped but its flags are dropped: Data(until_marker=re.compile(b"end", re.I)) finds "END" when unpacking, the pre-filter looks for "end" only and rejects the string', x.lineno, clause='a', witness=True,
+                              key='Data.pack_regexp: the flags of the delimiter expression are dropped')
+            else:
+                ctx.violation(rule, f_, st, 'the pattern of the delimiter is spliced bare into the packet\'s regular expression: an alternative in it (re.compile(b"\\\\d+!|$")) splits the whole expression, and its flags (re.I) are lost -- a string that unpacks to a packet equal to the pattern is rejected by the pre-filter', x.lineno, clause='a', witness=True,
+                              key='Data.pack_regexp: the delimiter expression is embedded without a group')
+    if not n:
+        ctx.undecided(rule, fi, 'Data.pack_regexp', 'cannot see where the pattern of a regular-expression delimiter is embedded', fi.node.lineno, clause='a')
+    ctx.unit('delimiter_patterns', n)
+
+
 def pattern_operand_ok(e):
     """(ok, why) for one operand of a chunk inserted as a pattern"""
     if isinstance(e, ast.Constant) and isinstance(e.value, (bytes, str)):
@@ -83,6 +205,12 @@ def pattern_operand_ok(e):
                 return False, 'a %s conversion places arbitrary text in the pattern' % [c for c in convs if c not in 'idxXo%']
             if isinstance(inner, ast.Constant):
                 return True, 'constant'
+            if isinstance(inner, ast.Call) and isinstance(inner.func, ast.Attribute) and inner.func.attr == 'join' and len(inner.args) == 1 \
+                    and isinstance(inner.args[0], (ast.GeneratorExp, ast.ListComp)) and len(inner.args[0].generators) == 1:
+                gen_ = inner.args[0].generators[0]
+                if isinstance(gen_.iter, (ast.Tuple, ast.List)) and gen_.iter.elts and all(isinstance(x, ast.Tuple) and x.elts and isinstance(x.elts[0], ast.Constant) and x.elts[0].value in ('i', 'm', 's', 'x', 'a', 'L') for x in gen_.iter.elts) \
+                        and isinstance(gen_.target, ast.Tuple) and isinstance(inner.args[0].elt, ast.Name) and isinstance(gen_.target.elts[0], ast.Name) and inner.args[0].elt.id == gen_.target.elts[0].id:
+                    return True, 'inline flag letters'
         if isinstance(f, ast.Attribute) and f.attr == 'join' and e.args:
             g = e.args[0]
             if isinstance(g, (ast.GeneratorExp, ast.ListComp)):
@@ -106,6 +234,12 @@ def pattern_operand_ok(e):
                 if any(v[0] is False for v in verdicts):
                     return [v for v in verdicts if v[0] is False][0]
                 return None, 'cannot see what Any.%s() returns' % f.attr
+        # a function of the package that renders a compiled regex as a group (its pattern between
+        # constant group syntax, the flag letters computed from its .flags)
+        if isinstance(f, ast.Name) and _REPO[0] is not None and len(e.args) == 1 and not e.keywords:
+            g_ = _group_helper(_REPO[0], f.id)
+            if g_ is not None:
+                return True, 'group around the pattern of a compiled regex (%s)' % f.id
         raw_bytes = (isinstance(f, ast.Name) and f.id in ('bytes', 'bytearray', 'chr', 'getattr')) or \
                     (isinstance(f, ast.Attribute) and f.attr in ('pack', 'to_bytes', 'tobytes', 'group'))
         return (False if (raw_bytes or _has_value_read(e)) else None), 'result of %s (raw bytes) is placed in the pattern unescaped' % (nm or unparse(f))
@@ -500,7 +634,15 @@ def check_widths(ctx, repo):
                 ops = concat_ops(e.call.args[0])
                 tail = ops[-1]
                 tt = canon(tail)
-                if ('re.escape(self.until_marker)' in tt and 'self.until_marker.pattern' in tt) or tt in ('re.escape(self.until_marker)', 'self.until_marker.pattern'):
+                if isinstance(tail, ast.Constant) and isinstance(tail.value, bytes) and tail.value.startswith(b')') and _group_operands(ops, 'self.until_marker')[0]:
+                    # ... <group syntax> self.until_marker.pattern b')': the tail is the marker's group
+                    gi = next(i_ for i_, x_ in enumerate(ops) if isinstance(x_, ast.Attribute) and x_.attr == 'pattern' and canon(x_.value) == 'self.until_marker')
+                    start = gi - 1 if (isinstance(ops[gi - 1], ast.Constant) and ops[gi - 1].value.endswith(b'(?:')) else gi - 3
+                    ops = ops[:start] + [ops[gi]]
+                    tail = ops[-1]
+                    tt = canon(tail)
+                helper_tail = any(isinstance(c_, ast.Call) and isinstance(c_.func, ast.Name) and len(c_.args) == 1 and canon(c_.args[0]) == 'self.until_marker' and _group_helper(repo, c_.func.id) is not None for c_ in ast.walk(tail))
+                if ('re.escape(self.until_marker)' in tt and ('self.until_marker.pattern' in tt or helper_tail)) or tt in ('re.escape(self.until_marker)', 'self.until_marker.pattern'):
                     if len(ops) >= 2 and _unconstrained(ops[0]):
                         ctx.holds(rule, dt, st, 'body pattern followed by the escaped marker / the marker pattern', e.lineno, clause='d')
                     else:
@@ -943,6 +1085,7 @@ def check(ctx):
         ctx.unit('functions')
         check_pack_regexp(ctx, cname, ci, fi)
     check_widths(ctx, repo)
+    check_delimiter_pattern_is_a_group(ctx, repo)
     check_user_callables(ctx, repo)
     check_assembly(ctx, repo)
     # assemble_regexp reads the stored chunk of every recorded position (its length closes the
